@@ -7,7 +7,7 @@ with constant folding); max-size: in both codecs every state change / consumptio
 arm passes the comparison with the configured inbound maximum and the over-size edge returns
 MaxSizeExceeded; reject: each of the property loops ends its fall-through arm in Err, once-only
 properties go through read_value (is_none guard), no transmute / unchecked UTF-8 construction is
-reachable from the decoders; frame-confinement: only the two Codec::decode bodies consume from the
+reachable from the decoders; frame-exhausted: every decode_packet arm returns Ok only after an emptiness test of the frame buffer that follows its last read (must-dataflow with callee summaries); frame-confinement: only the two Codec::decode bodies consume from the
 receive buffer, VersionCodec consumes nothing. Termination of the outer loop, re-encode stability and
 independence from fragmentation (C10) are not decided here."""
 import os
@@ -335,6 +335,22 @@ def reject(F, R, cg):
     R.floor('C02.reject', 'prim_enum TryFrom impls', n, 9)
 
 
+def frame_exhausted(F, R):
+    """Every first-byte arm of both decode_packet functions returns Ok only with the frame buffer known
+    empty (rules/exhaust.py): a frame whose content is shorter than its Remaining Length is an error."""
+    import exhaust, json as _json
+    base = os.path.dirname(os.path.dirname(os.path.abspath(__file__)))
+    n = 0
+    for ver, specf in (('v5', 'mqtt5_tables.json'), ('v3', 'mqtt311_tables.json')):
+        spec = _json.load(open(os.path.join(base, 'spec', specf)))
+        names = {v: k for k, v in spec['packet_types'].items()}
+        for name, ok, loc, oks in exhaust.per_arm(F, ver, names):
+            n += 1
+            R.ob('C02.frame-exhausted', '%s|%s|Ok-only-when-the-whole-frame-was-read' % (ver, name), ok,
+                 'this packet is accepted although bytes of its frame are left over (inner lengths contradict the Remaining Length): no emptiness test dominates the Ok result after the last read', loc)
+    R.floor('C02.frame-exhausted', 'decode_packet arms', n, 27)
+
+
 def frame_confinement(F, R, cg):
     n = 0
     for b in F.bodies.values():
@@ -360,4 +376,5 @@ def run(F, R):
     varint(F, R)
     max_size(F, R)
     reject(F, R, cg)
+    frame_exhausted(F, R)
     frame_confinement(F, R, cg)
